@@ -30,6 +30,8 @@ MENU = [
     "a eq 1", "a in (1, 2, 3)", "contains(tolower(name), 'x') eq true", "xs/any(x: x/p gt 1) and not (b lt 2)", "a/b/c/d eq null",
     "ns.f(p=1, q='s', r=(1, 2))", "eq a", "a eq eq 1", "a eq 1 )", "a eq", "$a eq 1", "a eq 1 $", "zz(1)", "length(a, b)", "", "   ",
     LONG, "(1, 2,", "a/b/c/any(", "'unterminated",
+    # the same function first valid, then with a wrong argument count / in another namespace (per-instance memo tables)
+    "length(a) eq 1", "substring(a, 1) eq 'x'", "substring(a) eq 'x'", "geo.length(a, b)", "ns.length(a, b, c) eq 1",
 ]
 
 _fresh_cache = {}
